@@ -24,7 +24,7 @@ COUNTS = dict(quick=1600, thorough=20000)
 CLASSES = flat.SYNC_CLASSES + flat.ASYNC_CLASSES
 TWO_CLASSES = ['Machine', 'LockedMachine', 'HierarchicalMachine', 'LockedHierarchicalMachine', 'AsyncMachine',
                'HierarchicalAsyncMachine']
-RULE = ('11 of 16 cases: one machine of a predefined class (all 12, round-robin; queued False/True and, for async '
+RULE = ('10 of 16 cases: one machine of a predefined class (all 12, round-robin; queued False/True and, for async '
         'classes, \'model\') built from a random flat configuration (C01 generator, 1-4 states, 1-3 events) of which '
         'a random part of the states/transitions is held back and added by add_states/add_transition operations in '
         'the history; a universe of 1-4 model objects, optionally one of them the machine itself, about a third of '
@@ -42,7 +42,7 @@ RULE = ('11 of 16 cases: one machine of a predefined class (all 12, round-robin;
         'a queued Machine / HierarchicalMachine / LockedMachine / GraphMachine with 2-4 models (every third one falsy) '
         'whose callbacks trigger further events and remove models; a run of remove actions of one callback is ONE '
         'remove_model([m1, m2, ...]) call with a list while events of these models are pending; compared with '
-        'Queue.drain (C05 model). 1 of 8 cases: two machines (flat, locked, hierarchical, async classes) with distinct '
+        'Queue.drain (C05 model). For the graph (= markup) classes every operation is followed by a look at markup[\'models\'] (one entry per registered model with THAT model\'s state and class), and at the end a second machine is built from markup=<markup> and its models\' classes and states are compared. 1 of 16 cases (state features): a C19-generated machine decorated with Tags/Error/Volatile/Retry mixins, >= 2 models, interleaved histories, at least one retry budget; compared with Features.v. 1 of 8 cases: two machines (flat, locked, hierarchical, async classes) with distinct '
         'model_attribute on one object, random overlapping/disjoint state and event names, auto_transitions on/off; '
         'observed: the owning machine of every helper name and the attributes after calling 1-6 helpers. Non-trivial: '
         'a dispatch that ran callbacks or changed state on >= 2 models, or a membership change followed by a '
@@ -66,11 +66,14 @@ ASSUMPTIONS = ['remove_model is only called for registered models (an unregister
                'as keys of _transition_queue_dict and raises KeyError on every trigger — reported); in graph classes, '
                'after a copy, stale helpers of removed models are not called and removed models are not re-added (the '
                'copy has no graph for them)',
+               'state features: Timeout is not modelled (C17); its per-model timers and Retry\'s per-model counters are '
+               'checked on the implementation by the extra check features_interleaved_equals_solo (every model\'s outcome '
+               'in an interleaved history = its solo run; a model in a timeout state owns a live timer)',
                'garbage collection: the theorem is "no table keeps the key"; the collector is assumed and checked with '
                'weakref + gc.collect() on every class and queue mode, on the original machine, on a pickle round trip and on '
                'a deep copy of it (extra check gc_after_remove)',
                'Python runtime semantics of the recording callables']
-THEOREMS = ['C10_invariant', 'C10_frame', 'C10_dispatch', 'C10_late_model', 'C10_late_model_names', 'C10_add_twice', 'C10_add_twice_list', 'C10_in_call_repetition', 'C10_removed_list_pending', 'C10_copy', 'C10_own_initial', 'C10_own_initial_once',
+THEOREMS = ['C10_invariant', 'C10_frame', 'C10_dispatch', 'C10_late_model', 'C10_late_model_names', 'C10_add_twice', 'C10_add_twice_list', 'C10_in_call_repetition', 'C10_removed_list_pending', 'C10_copy', 'C10_features_per_model', 'C10_own_initial', 'C10_own_initial_once',
             'C10_graph_readd_raises', 'C10_graph_readd_example',
             'C10_removed_tables', 'C10_removed', 'C10_removed_graph_key_refuted', 'C10_two_machines',
             'C10_two_machines_hsm_refuted', 'C10_example']
@@ -94,6 +97,8 @@ def gen(rng, i, tier):
         return gen_queue(rng, i, tier)
     if i % 16 == 5:
         return gen_own(rng, i, tier)
+    if i % 16 == 13:
+        return gen_features(rng, i, tier)
     cname = CLASSES[(i - i // 8) % len(CLASSES)]
     lk, gr, hs, asy = class_flags(cname)
     queued = rng.choice([False, True] + (['model'] if asy else []))
@@ -266,6 +271,26 @@ def gen(rng, i, tier):
                 ctor_models=ctor_models, ctor_trans=ctor_trans, history=hist, malformed=malformed, falsy=falsy)
 
 
+def gen_features(rng, i, tier):
+    """a machine decorated with state-feature mixins (C19 generator: Tags / Error / Volatile / Retry in any order) with
+    >= 2 models and interleaved histories; at least one state has a retry budget"""
+    import c19
+    best = None
+    for attempt in range(40):
+        j = 9 * (i + attempt) + (attempt % 8)            # never the malformed stream of C19 (i % 9 == 8)
+        c = c19.gen(random.Random('%r-%d' % (rng.random(), attempt)), j, tier)
+        if c19.FR in c['order'] and c['nmodels'] >= 2 and any(s['retries'] for s in c['states']) \
+                and len(set(h[0] for h in c['history'] if c19.is_call(h))) >= 2:
+            best = c
+            break
+        if best is None and c['nmodels'] >= 2:
+            best = c
+    c = best if best is not None else c
+    c = dict(c)
+    c['kind'] = 4
+    return c
+
+
 def gen_own(rng, i, tier):
     """hierarchical machine (nested, parallel and compound states with initial children; states named by Enum
     members whose names repeat on every level, or by strings) and models added later with their OWN initial state"""
@@ -400,6 +425,9 @@ def enc_op(o):
 
 
 def enc(case):
+    if case['kind'] == 4:
+        import c19
+        return [4] + c19.enc(case)
     if case['kind'] == 3:
         import hsm
         return [3, hsm.enc_hmachine(case['machine']), list(case['init']),
@@ -439,7 +467,7 @@ def _removes_registered_only(case):
 
 
 def in_envelope(case):
-    if case['kind'] in (1, 2, 3):
+    if case['kind'] in (1, 2, 3, 4):
         return True
     return not case.get('malformed', False) and _removes_registered_only(case)
 
@@ -454,6 +482,9 @@ def canon(case, obs):
     sorted; implementation side is produced in that form"""
     if isinstance(obs, dict) or not isinstance(obs, list) or not obs:
         return obs
+    if case['kind'] == 4:
+        import c19
+        return c19.canon(case, obs)
     if case['kind'] == 3:
         if isinstance(obs, list) and obs and obs[0] == 3:
             return [3, obs[1]]
@@ -474,13 +505,28 @@ def canon(case, obs):
             if worst >= 16:
                 return [1, 'payload-overflow']
         return c05.canon(case, obs)
+    gr = class_flags(case['cls'])[1]
+
+    def markup_of(w):
+        """markup['models'] of the graph (= markup) classes: one entry per registered model, in registration order,
+        with THAT model's state and class"""
+        return [[m, w[1][m][0]] for m in w[0]] if gr else []
+
+    def rebuilt_of(w):
+        """the models of a machine rebuilt from the markup: class (0 plain / 1 falsy / 2 the machine) and state"""
+        if not gr:
+            return []
+        fal = set(case.get('falsy', []))
+        return [[2 if m == case['self_id'] else (1 if m in fal else 0), w[1][m][0]] for m in w[0]]
     if obs[0] == 1 and len(obs) == 3 and not (obs[2] and isinstance(obs[2][0], dict)):
         steps = []
         for blocks, res, w in obs[2]:
-            steps.append([[it for b in blocks for it in b[1]], res, _canon_world(w), 1])
-        return [1, _canon_world(obs[1]), steps]
+            cw = _canon_world(w)
+            steps.append([[it for b in blocks for it in b[1]], res, cw, 1, markup_of(cw)])
+        last = steps[-1][2] if steps else _canon_world(obs[1])
+        return [1, _canon_world(obs[1]), steps, rebuilt_of(last)]
     if obs[0] == 1:
-        return [1, obs[1], [[s['items'], s['result'], s['world'], s['order_ok']] for s in obs[2]]]
+        return [1, obs[1], [[s['items'], s['result'], s['world'], s['order_ok'], s['markup']] for s in obs[2]], obs[3]]
     return obs
 
 
@@ -546,6 +592,9 @@ def _impl_multi(case):
         return impl_queue_lists(case)
     if case['kind'] == 3:
         return impl_own(case)
+    if case['kind'] == 4:
+        import c19
+        return c19.impl_features(case)
     tr = flat._import_transitions()
     cname = case['cls']
     cls = flat.get_class(cname)
@@ -636,6 +685,49 @@ def _impl_multi(case):
         queues = keys_of(machine._transition_queue_dict) if (asy and case['queued'] == 'model') else []
         return [[world.model_ids.get(id(x), 99) for x in machine.models], per, ctx, graphs, queues]
 
+    def class_name_of(mod):
+        return 'self' if mod is machine else type(mod).__module__ + '.' + type(mod).__name__
+
+    def observe_markup():
+        if not gr:
+            return []
+        try:
+            entries = machine.markup.get('models', [])
+        except CaseTimeout:
+            raise
+        except BaseException as ex:  # noqa
+            return [[98, flat.classify_exc(ex)]]
+        if len(entries) != len(machine.models):
+            return [[97, [len(entries)]]]
+        outm = []
+        for ent, mod in zip(entries, machine.models):
+            st = ent.get('state')
+            try:
+                code = [int(str(st)[1:])]
+            except Exception:  # noqa
+                code = [996]
+            if ent.get('class-name') != class_name_of(mod):
+                code = [997]              # the entry describes another model's class
+            outm.append([world.model_ids.get(id(mod), 99), code])
+        return outm
+
+    def observe_rebuilt():
+        """a second machine built from markup=<the first one's markup>: one model per described model, each of the
+        described class and in the described state"""
+        if not gr:
+            return []
+        try:
+            clone = cls(markup=machine.markup, **flat.class_kwargs(cname))
+            outr = []
+            for mod in clone.models:
+                kind = 2 if mod is clone else (1 if isinstance(mod, FalsyObj) else (0 if type(mod) is Obj else 9))
+                outr.append([kind, [flat.state_int(mod)]])
+            return outr
+        except CaseTimeout:
+            raise
+        except BaseException as ex:  # noqa
+            return [[95, flat.classify_exc(ex)]]
+
     w0 = observe()
     out = []
     for o in case['history']:
@@ -704,8 +796,8 @@ def _impl_multi(case):
             qs = list(machine._transition_queue_dict.values())
             if len(set(id(q) for q in qs)) != len(qs) or any(len(q) for q in qs):
                 order_ok = 0      # every model has its OWN queue, empty between calls (models are independent)
-        out.append(dict(items=world.items, result=res, world=observe(), order_ok=order_ok))
-    return [1, w0, out]
+        out.append(dict(items=world.items, result=res, world=observe(), order_ok=order_ok, markup=observe_markup()))
+    return [1, w0, out, observe_rebuilt()]
 
 
 def impl_own(case):
@@ -900,8 +992,8 @@ def oracle(case, obs):
             if own != [want]:
                 return 'two_machines: helper %s requested by machine %d is bound to %r' % (py_name(nm), want, own)
         return None
-    if case['kind'] == 3:
-        return None          # own initial states: compared with Multi.own_run (C10_own_initial)
+    if case['kind'] in (3, 4):
+        return None          # own initial states / state features: compared with Multi.own_run / Features.v
     if case['kind'] == 2 or obs[0] != 1:
         return None          # the queued stream is compared with Queue.v (C05_remove_exact) only
     lk, gr, hs, asy = class_flags(case['cls'])
@@ -909,7 +1001,9 @@ def oracle(case, obs):
     if len(prev[0]) != len(set(prev[0])):
         return 'a model listed twice in the constructor is registered twice'
     removed = set()
-    for o, (items, res, w, order_ok) in zip(case['history'], obs[2]):
+    for o, (items, res, w, order_ok, markup) in zip(case['history'], obs[2]):
+        if gr and markup != [[m_, w[1][m_][0]] for m_ in w[0]]:
+            return 'markup: the entries of markup[\'models\'] do not describe the registered models one by one (%r)' % (markup,)
         models, per, ctx, graphs, queues = w
         pm, pper = prev[0], prev[1]
         k = o[0]
@@ -999,6 +1093,9 @@ def nontrivial(case, obs):
         return False
     if case['kind'] == 1:
         return obs[0] == 2 and _two_overlap(case)
+    if case['kind'] == 4:
+        import c19
+        return len(set(h[0] for h in case['history'] if c19.is_call(h))) >= 2
     if case['kind'] == 3:
         return any(p is not None and len(p) >= 2 for _, p, _ in case['adds'])
     if case['kind'] == 2:
@@ -1027,6 +1124,12 @@ def stats(case, obs, dist):
             inc('two_overlapping_states')
         if not _two_in_scope(case):
             inc('two_overlapping_events')
+        return
+    if case['kind'] == 4:
+        inc('feature_stream_cases')
+        inc('feature_models_%d' % case['nmodels'])
+        if any(s_['retries'] for s_ in case['states']):
+            inc('feature_cases_with_retry_budget')
         return
     if case['kind'] == 3:
         inc('own_initial_cases')
@@ -1075,6 +1178,13 @@ def stats(case, obs, dist):
 
 
 def shrink_candidates(case):
+    if case['kind'] == 4:
+        import c19
+        for c in c19.shrink_candidates(case):
+            c = dict(c)
+            c['kind'] = 4
+            yield c
+        return
     if case['kind'] == 3:
         for i in range(len(case['adds'])):
             c = copy.deepcopy(case)
@@ -1155,6 +1265,95 @@ def _gc_probe(cname, queued, restore=None):
     return ok, dict(collected=dead, models_left=len(m.models), state_of_survivor=b.state)
 
 
+class FeatObj(object):
+    """model of the feature probes: counts the entries of every state (callbacks by name)"""
+    def __init__(self):
+        self.entered = {}
+        self.failed = 0
+        self.timed_out = 0
+
+    def count(self, *args, **kwargs):
+        self.entered[self.state] = self.entered.get(self.state, 0) + 1
+
+    def on_fail(self, *args, **kwargs):
+        self.failed += 1
+        return getattr(self, 'to_s0')()
+
+    def on_tmo(self, *args, **kwargs):
+        self.timed_out += 1
+
+
+def _feature_machine(cname, spec, nmodels):
+    flat._import_transitions()
+    from transitions.extensions.states import Retry, Timeout, add_state_features
+    base = flat.get_class(cname)
+    cls = add_state_features(Timeout, Retry)(type('Feat' + cname, (base,), {}))
+    models = [FeatObj() for _ in range(nmodels)]
+    states = []
+    for k, (retries, timeout) in enumerate(spec['states']):
+        d = dict(name='s%d' % k, on_enter='count')
+        if retries:
+            d.update(retries=retries, on_failure='on_fail')
+        if timeout:
+            d.update(timeout=3600, on_timeout='on_tmo')        # never fires; one timer per model and entry
+        states.append(d)
+    m = cls(model=models, states=states, initial='s0', ignore_invalid_triggers=True,
+            transitions=[dict(trigger='e%d' % e, source='s%d' % a, dest=('=' if b is None else 's%d' % b))
+                         for e, a, b in spec['trans']], **flat.class_kwargs(cname))
+    return m, models
+
+
+def _feature_run(cname, spec, nmodels, history):
+    """per model: after each of ITS calls (result / exception type, state, entry counters, failures)"""
+    m, models = _feature_machine(cname, spec, nmodels)
+    out = [[] for _ in models]
+    timers_ok = True
+    try:
+        for who, e in history:
+            mod = models[who]
+            try:
+                r = [0, bool(getattr(mod, 'e%d' % e)())]
+            except BaseException as ex:  # noqa
+                r = [1, flat.classify_exc(ex)]
+            out[who].append([r, mod.state, sorted(mod.entered.items()), mod.failed, mod.timed_out])
+            # Timeout.runner: a model sitting in a timeout state owns a live timer there, whatever the others did
+            for k, (_, timeout) in enumerate(spec['states']):
+                st = m.get_state('s%d' % k)
+                for x in models:
+                    t = st.runner.get(id(x)) if timeout else None
+                    if timeout and x.state == 's%d' % k and 's%d' % k in x.entered and (t is None or not t.is_alive()):
+                        timers_ok = False
+    finally:
+        for st in m.states.values():
+            for t in getattr(st, 'runner', {}).values():
+                t.cancel()
+    return out, timers_ok
+
+
+def _feature_probe(rng, cname):
+    """independence of the per-model bookkeeping of state-feature mixins (Retry.retry_counts, Timeout.runner):
+    the outcome of every model in an interleaved history equals its solo run of the same calls"""
+    ns = rng.randint(2, 4)
+    spec = dict(states=[(rng.choice([0, 1, 1, 2]), rng.random() < 0.4) for _ in range(ns)], trans=[])
+    spec['states'][0] = (0, spec['states'][0][1])
+    for e in range(rng.randint(1, 3)):
+        for a in rng.sample(range(ns), rng.randint(1, ns)):
+            spec['trans'].append((e, a, rng.choice([None, None] + list(range(ns)))))
+    nm = rng.randint(2, 3)
+    ne = 1 + max(e for e, _, _ in spec['trans'])
+    history = [(rng.randrange(nm), rng.randrange(ne)) for _ in range(rng.randint(6, 16))]
+    inter, timers_ok = _feature_run(cname, spec, nm, history)
+    for who in range(nm):
+        solo, solo_ok = _feature_run(cname, spec, 1, [(0, e) for w_, e in history if w_ == who])
+        timers_ok = timers_ok and solo_ok
+        if solo[0] != inter[who]:
+            return False, dict(cls=cname, spec=spec, models=nm, history=history, model=who, interleaved=inter[who],
+                               solo=solo[0])
+    if not timers_ok:
+        return False, dict(cls=cname, spec=spec, models=nm, history=history, timers='a model in a timeout state has no live timer')
+    return True, None
+
+
 def extra_checks(tier, seed):
     gc.collect()
     gc.freeze()         # the driver holds all cases and observations: keep them out of the probes' collections
@@ -1184,6 +1383,22 @@ def _extra_checks(tier, seed):
                                failing_clause='a removed model is not garbage-collectable (weakref alive after '
                                               'remove_model + gc.collect()) or the remaining model is disturbed'
                                               + (' — on a %s copy of the machine' % restore if restore else ''))
+    n_probe = 60 if tier == 'quick' else 600
+    fbad = None
+    for j in range(n_probe):
+        rng = random.Random('C10-feat-%d-%d' % (seed, j))
+        cname = ['Machine', 'LockedMachine', 'HierarchicalMachine', 'GraphMachine'][j % 4]
+        try:
+            okf, d = _feature_probe(rng, cname)
+        except BaseException as ex:  # noqa
+            okf, d = False, dict(cls=cname, error='%s: %s' % (type(ex).__name__, ex))
+        if not okf and fbad is None:
+            fbad = dict(kind='oracle', check='features_interleaved_equals_solo', observed=d,
+                        failing_clause='state features (Retry, Timeout): a model\'s outcome in an interleaved history '
+                                       'differs from its solo run of the same calls (per-model bookkeeping leaked)')
+    out.append(('features_interleaved_equals_solo', fbad is None,
+                dict(probes=n_probe, features='add_state_features(Timeout, Retry)', models='2-3', all_equal=fbad is None),
+                fbad or {}))
     out.append(('gc_after_remove', bad is None,
                 dict(classes=len(CLASSES), configurations=len(detail), all_collected=bad is None,
                      machines='original, pickle.loads(pickle.dumps(..)), copy.deepcopy(..)',
